@@ -18,7 +18,7 @@
    limit; a state reproduced by the non_negative loop body is a KKT point; the documented stand-alone call raises (refuted /
    partial pair C13_admm_returns_refuted, C13_admm_returns_partial). *)
 From Coq Require Import List Arith Reals Lra QArith Qabs.
-From TLV Require Import Base.Ops Base.PyList Base.Tensor Base.RSum Model.Nnls Model.NnlsEntry Proofs.NnlsProofs Proofs.NnlsProofsDescent Proofs.NnlsProofsNz Proofs.NnlsProofsAdmm Proofs.NnlsProofsFista Proofs.NnlsProofsFista2 Proofs.NnlsProofsAset Proofs.NnlsProofsAsetCert Proofs.NnlsProofsAsetFull Proofs.NnlsProofsExamples Proofs.NnlsProofsConv Proofs.NnlsProofsStep Proofs.NnlsProofsEntry Proofs.NnlsProofsGap Proofs.NnlsProofsTol0 Proofs.NnlsProofsAsetRnd Proofs.NnlsProofsUnique Proofs.NnlsProofsLimit Proofs.NnlsProofsFistaRate Proofs.NnlsProofsEps Proofs.NnlsProofsAsetTerm Model.NnlsAdmm Proofs.NnlsProofsAdmmLoop Proofs.NnlsProofsAdmmWitness Model.NnlsMomentum Proofs.NnlsProofsMomentum.
+From TLV Require Import Base.Ops Base.PyList Base.Tensor Base.RSum Model.Nnls Model.NnlsEntry Proofs.NnlsProofs Proofs.NnlsProofsDescent Proofs.NnlsProofsNz Proofs.NnlsProofsAdmm Proofs.NnlsProofsFista Proofs.NnlsProofsFista2 Proofs.NnlsProofsAset Proofs.NnlsProofsAsetCert Proofs.NnlsProofsAsetFull Proofs.NnlsProofsExamples Proofs.NnlsProofsConv Proofs.NnlsProofsStep Proofs.NnlsProofsEntry Proofs.NnlsProofsGap Proofs.NnlsProofsTol0 Proofs.NnlsProofsAsetRnd Proofs.NnlsProofsUnique Proofs.NnlsProofsLimit Proofs.NnlsProofsFistaRate Proofs.NnlsProofsEps Proofs.NnlsProofsAsetTerm Model.NnlsAdmm Proofs.NnlsProofsAdmmLoop Proofs.NnlsProofsAdmmWitness Model.NnlsMomentum Proofs.NnlsProofsMomentum Proofs.NnlsProofsNzEps.
 From TLV Require Model.Prox.
 Import ListNotations.
 Open Scope R_scope.
@@ -447,6 +447,25 @@ Theorem C13_admm_nonneg_fixed_point_kkt : forall (solve : list (list R) -> list 
     0 <= mget Rops x c i /\ 0 <= g /\ mget Rops x c i * g = 0 /\ g = admm_rho Rops UtU r * mget Rops d c i.
 Proof. exact admm_nonneg_fixed_point_kkt. Qed.
 Print Assumptions C13_admm_nonneg_fixed_point_kkt.
+
+(* FULL: admm with non_negative=True returns a non-negative x -- any tl.solve (no contract), any data and shapes, any tol,
+   any n_const / order the call accepts *)
+Theorem C13_admm_nonneg_returns_nonneg : forall (solve : list (list R) -> list (list R) -> list (list R)) (nc : nat) (order : option nat)
+  (UtM UtU x dual : list (list R)) (m r n : nat) (tol : R) (x' xs' d' : list (list R)),
+  admm Rops solve (Some nc) order KNonneg UtM UtU x dual m r n tol = Ok (x', xs', d') -> nonnegm x'.
+Proof. exact admm_nonneg_returns_nonneg. Qed.
+Print Assumptions C13_admm_nonneg_returns_nonneg.
+
+(* FULL (round 7): nonzero_rows=True with epsilon > 0 -- every updated row is >= epsilon > 0, the safety reset never fires; when no
+   diagonal entry of UtU vanishes (otherwise nonzero_rows raises, C13_hals_rejects...) the call IS the call with nonzero_rows=False
+   (nz_off o), for every start (warm or cold), budget, tol, sparsity / ridge coefficient: so the theorems stated for
+   nonzero_rows=False (descent, limit, fixed point <=> KKT, optimality at the bound epsilon) apply to it *)
+Theorem C13_hals_nonzero_rows_eps_is_plain : forall (UtM UtU : list (list R)) (n : nat) (o : @hopts R),
+  0 < h_eps o -> n <> 0%nat ->
+  forall (V0 : option (list (list R))) (sol : list (list R)) (iters : nat) (tol : R), zero_diag Rops UtM UtU = false ->
+  hals_nnls Rops UtM UtU n V0 sol iters tol o = hals_nnls Rops UtM UtU n V0 sol iters tol (nz_off o).
+Proof. exact hals_nnls_nonzero_rows_eps. Qed.
+Print Assumptions C13_hals_nonzero_rows_eps_is_plain.
 
 (* non-vacuity of the HALS fixed-point / optimality theorems: a 2 x 1 problem with one inactive and one active
    constraint; its optimum (3/2, 0) satisfies every hypothesis above at once (plain and l1/ridge-penalised) *)
